@@ -364,3 +364,67 @@ package file
 //@   callee initJobOffset(op, j)
 //@     requires started ==> op == offsetsOpReset
 //@     requires !started ==> op == jp.config.OffsetsOp_
+
+// ---------------------------------------------------------------------------
+// C06 / C03: maintenanceJob releases and reopens the descriptor of a finished job.
+// The read position and the held-back unterminated tail belong together: the
+// position is *behind* the bytes kept in job.tail.  Whatever branch is taken, a job
+// that is kept keeps its tail, and the reopened descriptor is positioned at exactly
+// the offset the old one had (first seek: query, second seek: restore).
+
+//@ func (*jobProvider).maintenanceJob
+//@   option allow-exit yes
+//@   ghost nseek int = 0
+//@   ghost cur int = 0
+//@   requires job != nil
+//@   ensures ref(job.tail) == old(ref(job.tail))
+//@   ensures off(job.tail) == old(off(job.tail))
+//@   ensures len(job.tail) == old(len(job.tail))
+//@   ghost reopened bool = false
+//@   ensures result == maintenanceResultNoop && reopened ==> nseek == 2
+//@   callee seek(off, whence, hint) (r)
+//@     requires nseek == 0 ==> off == 0 && whence == 1
+//@     requires nseek == 1 ==> off == cur && whence == 0
+//@     requires nseek <= 1
+//@     pure
+//@     set cur := ite(nseek == 0, r, cur)
+//@     set nseek := nseek + 1
+//@   callee Stat() (st, err)
+//@     pure
+//@   callee Close() (err)
+//@     pure
+//@   callee Open(n) (f, err)
+//@     pure
+//@     set reopened := err == nil
+//@   callee Remove(n) (err)
+//@     pure
+//@   callee Size() (n)
+//@     pure
+//@   callee Name() (n)
+//@     pure
+//@   callee Base(p) (r)
+//@     pure
+//@   callee Dir(p) (r)
+//@     pure
+//@   callee getInode(st) (r)
+//@     pure
+//@   callee GetInaccurateTime() (t)
+//@     pure
+//@   callee Sub(t) (d)
+//@     pure
+//@   callee getTimestamp() (t)
+//@     pure
+//@   callee tryResumeJobAndUnlock(j, f)
+//@     pure
+//@   callee deleteJobAndUnlock(j)
+//@     pure
+//@   callee Warnf(f, a)
+//@     pure
+//@   callee Infof(f, a)
+//@     pure
+//@   callee Errorf(f, a)
+//@     pure
+//@   callee Lock()
+//@     pure
+//@   callee Unlock()
+//@     pure
